@@ -18,7 +18,7 @@ def carrier_list(tier):
     more = [('np:' + d, []) for d in INT_DTYPES + FLT_DTYPES if d not in ('float64', 'int64')] + \
            [('arr:' + d, [2]) for d in INT_DTYPES + FLT_DTYPES if d not in ('float64', 'int64')] + \
            [('arr:float64', [3]), ('arr:float64', [2, 2]), ('arr:int64', [1])] + \
-           [('nplist:' + d, [2]) for d in ('uint8', 'int8', 'int32', 'uint16')]      # Python lists of narrow NumPy integer scalars
+           [('nplist:' + d, [2]) for d in ('uint8', 'int8', 'int32', 'uint16', 'float16', 'float32')]      # Python lists of narrow NumPy integer / float scalars
     return base + more
 
 
